@@ -44,7 +44,7 @@ fn op(u: &mut Unstructured<'_>, consume: bool, depth: u32) -> arbitrary::Result<
         8 => Op::Remove { owner: u.arbitrary()?, slot: u.arbitrary()?, unadopt: u.arbitrary()?, keep: u.arbitrary()? },
         9 if u.ratio(1u8, 8u8)? => Op::NewUninitAdopted { target: u.arbitrary()?, loopback: u.arbitrary()? },
         9 => Op::Downgrade(u.arbitrary()?),
-        10 => Op::CloneWeak(u.arbitrary()?),
+        10 => { let h: u16 = u.arbitrary()?; if h & 7 == 7 { Op::WeakCloneFrom { dst: h, src: u.arbitrary()? } } else { Op::CloneWeak(h) } }
         11 => Op::DropWeak(u.arbitrary()?),
         12 => Op::Upgrade(u.arbitrary()?),
         13 => Op::StoreWeak { owner: u.arbitrary()?, w: u.arbitrary()? },
@@ -114,6 +114,8 @@ pub fn run_bytes(data: &[u8]) {
         strict_loopback: false,
         shallow_clone: s.layout_seed & 1 == 1,
         clone_panics: 0,
+        clone_reentrant: false,
+        default_ctor: 0,
     };
     let r = std::panic::catch_unwind(std::panic::AssertUnwindSafe(|| crate::interp::run_script_body(&s, cfg)));
     if let Err(e) = r {
